@@ -7,8 +7,10 @@
     flags in both builds.  (3) The rest of the cfg-dependent glue (error type, `easy_parse` vs `parse`, hash maps) is compared
     by running the two builds on the same corpora. *)
 From Coq Require Import ZArith Bool.
-From RbpfV Require Import MachInt Verifier Interp JitMemProofs.
-From RbpfV.gen Require Import JitMem LibWrap.
+From Coq Require Import List.
+From RbpfV Require Import MachInt Verifier Interp JitMemProofs ApiFx ApiFxProofs.
+From RbpfV.gen Require Import JitMem LibWrap ApiFx.
+Import ListNotations.
 Open Scope Z_scope.
 
 (** both builds size the code buffer alike: a multiple of the page size, at least one page, at least the code length *)
@@ -32,7 +34,19 @@ Theorem C20_jit_flags_agree :
   gen_jit_flags_raw_no_std = gen_jit_flags_raw /\ gen_jit_flags_nodata_no_std = gen_jit_flags_nodata.
 Proof. exact jit_flags_agree. Qed.
 
+(** the state-changing API methods have the same effects in both builds; the only difference is that the no_std jit_compile
+    takes the caller-supplied executable memory, and it does so after checking that a program is loaded *)
+Theorem C20_api_effects_agree :
+  gen_fx_set_program_no_std = gen_fx_set_program /\ gen_fx_set_verifier_no_std = gen_fx_set_verifier /\
+  gen_fx_register_helper_no_std = gen_fx_register_helper /\
+  gen_fx_set_stack_usage_calculator_no_std = gen_fx_set_stack_usage_calculator /\
+  gen_fx_cranelift_compile_no_std = gen_fx_cranelift_compile /\
+  filter not_take gen_fx_jit_compile_no_std = gen_fx_jit_compile /\
+  (exists rest, gen_fx_jit_compile_no_std = FxRequireProg :: FxTakeExecMem :: rest).
+Proof. exact no_std_effects_agree. Qed.
+
 Print Assumptions C20_jit_memory_size.
+Print Assumptions C20_api_effects_agree.
 Print Assumptions C20_no_std_memory_refusal.
 Print Assumptions C20_no_std_accepts_what_std_allocates.
 Print Assumptions C20_jit_flags_agree.
